@@ -18,4 +18,4 @@ Definition verdict (id : N) (c : fcase) : list (list N) :=
   let m := map (filter_feature re_match user (is_some (fc_re c)) (fc_tags c)) (fc_features c) in
   let same := list_eqb feature_eqb m (fc_observed c) in
   (* for a pure function the monitor IS agreement with the proved-correct model *)
-  [row id 1 (judge same same 0)].
+  [vrow id 1 (judge same same 0)].
